@@ -9,6 +9,7 @@
 -/
 import SnowProofs.Lemmas.Snowing2D
 import SnowProofs.Lemmas.Stencil1D
+import SnowProofs.Lemmas.Snowing
 import Mathlib.Analysis.SpecialFunctions.Sqrt
 import Mathlib.Tactic.NormNum
 import Mathlib.Tactic.Positivity
@@ -496,13 +497,97 @@ theorem enthalpy_defect_identity (Nz : Nat) (hNz : 2 ≤ Nz) (dt rho dz qs qe Dh
   intro j _
   ring
 
+/-- the ice the model's step gives a node that ends below `T_eq_l` (cf. `C07.solidStep1D_ice`) -/
+theorem C07ice (p : SnowIn ℝ) (g : Grid1D ℝ) (stride iEnd : Nat) (tNuc : ℝ) (i : Nat) (s : Solid1D ℝ) (Tsh : ℝ)
+    (j : Nat) (hj : j < g.Nz) (hsc : aget (solidStep1D p g stride iEnd tNuc i s Tsh).T j < p.T_eq_l) :
+    aget (solidStep1D p g stride iEnd tNuc i s Tsh).w j
+      = iceMassEq p (aget (solidStep1D p g stride iEnd tNuc i s Tsh).T j) / p.const.mass := by
+  have hw : (solidStep1D p g stride iEnd tNuc i s Tsh).w
+      = ((solidStep1D p g stride iEnd tNuc i s Tsh).T.map fun t =>
+          (Num.zero : ℝ) * maskNum (!decide (t < p.T_eq_l)) + iceMassEq p t * maskNum (decide (t < p.T_eq_l))).map
+          (· / p.const.mass) := rfl
+  have hsz : (solidStep1D p g stride iEnd tNuc i s Tsh).T.size = g.Nz := by simp [solidStep1D]
+  rw [hw]
+  generalize (solidStep1D p g stride iEnd tNuc i s Tsh).T = Tn at hsz hsc ⊢
+  rw [Snow.aget_map _ _ j (by simp; omega), Snow.aget_map _ _ j (by omega)]
+  simp [maskNum, hsc]
+
+/-- the linearisation term is non-negative: `Δh·c/m ≥ 0` and both temperatures below `T_m` -/
+theorem capacity_defect_on_liquidus_nonneg (Dh c m Tm T T' : ℝ) (h : 0 ≤ Dh * (c / m)) (hT : T < Tm) (hT' : T' < Tm) :
+    0 ≤ Dh * (c / m) * (T' - T) ^ 2 / ((Tm - T') * ((Tm - T) * (Tm - T))) := by
+  have h1 : 0 < Tm - T := by linarith
+  have h2 : 0 < Tm - T' := by linarith
+  positivity
+
+/-- **`enthalpy_defect_identity` for the model's own step**: with the temperature field and the ice field
+that `Snow.solidStep1D` produces (`w' := (solidStep1D …).w`, `w :=` the ice field it started from), the
+model's `c_p`, `λ_eff`, `BETA` and its boundary fluxes `q_shelf = K_shelf·(T_sh − T₀)`, `q_e = qEvap` -/
+theorem enthalpy_defect_identity_model (p : SnowIn ℝ) (g : Grid1D ℝ) (stride iEnd : Nat) (tNuc : ℝ) (i : Nat)
+    (s : Solid1D ℝ) (Tsh Dh : ℝ) (hNz : 2 ≤ g.Nz) (hT : s.T.size = g.Nz) (hw : s.w.size = g.Nz)
+    (hrho : p.const.rho_l ≠ 0) (hdz : g.dz ≠ 0) (hcp : ∀ j, j < g.Nz → cpF p s.w j ≠ 0)
+    (hB : ∀ j, j < g.Nz → betaF p s.T s.w j ≠ 0) (hl0 : lamF p s.w 0 ≠ 0) (hlN : lamF p s.w (g.Nz - 1) ≠ 0) :
+    let st := solidStep1D p g stride iEnd tNuc i s Tsh
+    let qs := p.Kshelf * (Tsh - aget s.T 0)
+    let qe := Snow.qEvap p Evap.vapourPressureSolid (tNuc + g.dt * (i : ℝ)) (aget s.T (g.Nz - 1))
+    let e := ext g.Nz (aget s.T 0 + qs * g.dz / lamF p s.w 0) (aget s.T (g.Nz - 1) + qe * g.dz / lamF p s.w (g.Nz - 1))
+      (aget s.T)
+    p.const.rho_l * g.dz * ∑ j ∈ Finset.range g.Nz,
+        (cpF p s.w j * (aget st.T j - aget s.T j) - Dh * (aget st.w j - aget s.w j))
+      = g.dt * (qs + qe)
+        + g.dt / g.dz * (∑ j ∈ Finset.range g.Nz,
+              (lamU g.Nz (lamF p s.w) j - lamL (lamF p s.w) j) * (e (j + 2) - e j) / 4
+            - ∑ j ∈ Finset.range (g.Nz - 1), (lamF p s.w (j + 1) - lamF p s.w j) * (aget s.T (j + 1) - aget s.T j))
+        + p.const.rho_l * g.dz * ∑ j ∈ Finset.range g.Nz,
+            (cpF p s.w j * (1 - betaF p s.T s.w j) * (aget st.T j - aget s.T j) - Dh * (aget st.w j - aget s.w j)) := by
+  intro st qs qe e
+  have hrw : ∀ j, j < g.Nz → aget st.T j
+      = solid1D g.Nz g.dt p.const.rho_l (g.dz * g.dz) (lamF p s.w) (cpF p s.w) (betaF p s.T s.w)
+          (aget s.T 0 + qs * g.dz / lamF p s.w 0) (aget s.T (g.Nz - 1) + qe * g.dz / lamF p s.w (g.Nz - 1))
+          (aget s.T) j := fun j hj => solidStep1D_eq_solid1D p g stride iEnd tNuc i s Tsh hNz hT hw j hj
+  have h := enthalpy_defect_identity g.Nz hNz g.dt p.const.rho_l g.dz qs qe Dh (lamF p s.w) (cpF p s.w)
+    (betaF p s.T s.w) (aget s.T) (aget s.w) (aget st.w) hrho hdz hcp hB hl0 hlN
+  simp only [] at h
+  have hS1 : ∑ j ∈ Finset.range g.Nz,
+        (cpF p s.w j * (aget st.T j - aget s.T j) - Dh * (aget st.w j - aget s.w j))
+      = ∑ j ∈ Finset.range g.Nz,
+        (cpF p s.w j * (solid1D g.Nz g.dt p.const.rho_l (g.dz * g.dz) (lamF p s.w) (cpF p s.w) (betaF p s.T s.w)
+            (aget s.T 0 + qs * g.dz / lamF p s.w 0) (aget s.T (g.Nz - 1) + qe * g.dz / lamF p s.w (g.Nz - 1))
+            (aget s.T) j - aget s.T j) - Dh * (aget st.w j - aget s.w j)) :=
+    Finset.sum_congr rfl (fun j hj => by rw [hrw j (Finset.mem_range.mp hj)])
+  have hS2 : ∑ j ∈ Finset.range g.Nz,
+        (cpF p s.w j * (1 - betaF p s.T s.w j) * (aget st.T j - aget s.T j) - Dh * (aget st.w j - aget s.w j))
+      = ∑ j ∈ Finset.range g.Nz,
+        (cpF p s.w j * (1 - betaF p s.T s.w j)
+            * (solid1D g.Nz g.dt p.const.rho_l (g.dz * g.dz) (lamF p s.w) (cpF p s.w) (betaF p s.T s.w)
+              (aget s.T 0 + qs * g.dz / lamF p s.w 0) (aget s.T (g.Nz - 1) + qe * g.dz / lamF p s.w (g.Nz - 1))
+              (aget s.T) j - aget s.T j) - Dh * (aget st.w j - aget s.w j)) :=
+    Finset.sum_congr rfl (fun j hj => by rw [hrw j (Finset.mem_range.mp hj)])
+  rw [hS1, hS2]
+  exact h
+
+/-- **the K8 term on the model**: a node of `solidStep1D` that is not supercooled and ice-free before the
+step and supercooled after it has `BETA = 1` in that step, and the ice the model gives it afterwards is the
+liquidus ice of its NEW temperature: its capacity defect in `enthalpy_defect_identity_model` is
+`−Δh·iceMassEq(T'_j)/mass` -/
+theorem capacity_defect_crossing_model (p : SnowIn ℝ) (g : Grid1D ℝ) (stride iEnd : Nat) (tNuc : ℝ) (i : Nat)
+    (s : Solid1D ℝ) (Tsh Dh : ℝ) (j : Nat) (hj : j < g.Nz)
+    (hwarm : ¬ aget s.T j < p.T_eq_l) (hice0 : aget s.w j = 0)
+    (hcross : aget (solidStep1D p g stride iEnd tNuc i s Tsh).T j < p.T_eq_l) :
+    cpF p s.w j * (1 - betaF p s.T s.w j)
+        * (aget (solidStep1D p g stride iEnd tNuc i s Tsh).T j - aget s.T j)
+      - Dh * (aget (solidStep1D p g stride iEnd tNuc i s Tsh).w j - aget s.w j)
+      = -(Dh * (iceMassEq p (aget (solidStep1D p g stride iEnd tNuc i s Tsh).T j) / p.const.mass)) := by
+  have hb : betaF p s.T s.w j = 1 := by simp [betaF, maskNum, hwarm]
+  rw [hb, hice0, C07ice p g stride iEnd tNuc i s Tsh j hj hcross]
+  ring
+
 /-- **`liquidus_crossing_not_conservative` (K8, concrete witness)** — two layers, insulated at both
 ends (`q_shelf = q_e = 0`), uniform conductivity (so the conduction remainder vanishes),
 `ρ = c_p = Δh = dz = 1`, `dt = 1/4`, `T_m = 0`, liquidus `w_eq(t) = 1 + 1/t` (`T_eq_l = −1`).
 Layer 0 is unfrozen at `−1/2` (`BETA = 1`), layer 1 frozen at `−4` (`BETA = 17/16`, the model's
 `1 + β/(T − T_m)²`).  One step of the 1D solidification stencil takes layer 0 to `−11/8 < T_eq_l`,
 where it is given the ice `w_eq(−11/8) = 3/11`.  No heat crosses the boundary, yet the enthalpy
-of the column changes by `−3/11 + 49/2448 ≠ 0`: minus the crossing term `Δh·w_eq(T'₀)` plus the
+of the column changes by `−3/11 + 49/3672 ≠ 0`: minus the crossing term `Δh·w_eq(T'₀)` plus the
 (second-order, positive) linearisation term of layer 1. -/
 theorem liquidus_crossing_not_conservative :
     let lam : Nat → ℝ := fun _ => 1
